@@ -244,19 +244,25 @@ impl RaAdvService {
                 })
                 .collect(),
         ) {
-            options.add_option(icmppkt::NDOptionValue::RecursiveDnsServers((
-                intf.rdnss_lifetime
-                    .always_unwrap_or(3 * DEFAULT_MAX_RTR_ADV_INTERVAL),
-                v.clone(),
-            )))
+            /* RFC8106 Section 5.1: the option carries one or more addresses. */
+            if !v.is_empty() {
+                options.add_option(icmppkt::NDOptionValue::RecursiveDnsServers((
+                    intf.rdnss_lifetime
+                        .always_unwrap_or(3 * DEFAULT_MAX_RTR_ADV_INTERVAL),
+                    v.clone(),
+                )))
+            }
         }
 
         if let Some(v) = &intf.dnssl.unwrap_or(config.dns_search.clone()) {
-            options.add_option(icmppkt::NDOptionValue::DnsSearchList((
-                intf.dnssl_lifetime
-                    .always_unwrap_or(3 * DEFAULT_MAX_RTR_ADV_INTERVAL),
-                v.clone(),
-            )))
+            /* RFC8106 Section 5.2: the option carries one or more domain names. */
+            if !v.is_empty() {
+                options.add_option(icmppkt::NDOptionValue::DnsSearchList((
+                    intf.dnssl_lifetime
+                        .always_unwrap_or(3 * DEFAULT_MAX_RTR_ADV_INTERVAL),
+                    v.clone(),
+                )))
+            }
         }
 
         if let Some(pref64) = &intf.pref64 {
